@@ -188,6 +188,38 @@ theorem domItem_proj (T : Tables) {e : El} (h : DictInv e) {k : Str} (ho : Ordin
   · rfl
   · cases v <;> rfl
 
+/-- dot access of a linked name without a special rule: the listed value of its html attribute, else the default
+    (`''`, or `None` for event attributes) -/
+theorem dotGet_plain (T : Tables) {e : El} (h : DictInv e) {n : Str} {L : Link} (hn : n ≠ classNameK)
+    (hl : aget n T.links = some L) (hs : L.special = false) (hbs : L.binStr = false) (hb : L.bin = false)
+    (ho : Ordinary T L.attr) (hnb : T.binary.contains L.attr = false) :
+    (dotGet T n e).1 = some (match aget (lower L.attr) (viewList e) with
+      | none => if L.event then .none else .str []
+      | some v => pyOfOpt v) := by
+  unfold dotGet
+  simp only [hn, if_false, hl, hs, hbs, hb, Bool.false_eq_true]
+  congr 1
+  exact getAttribute_proj T h ho hnb _
+
+/-- dot access of a boolean linked name: True exactly when the attribute is listed -/
+theorem dotGet_boolean (T : Tables) {e : El} (h : DictInv e) {n : Str} {L : Link} (hn : n ≠ classNameK)
+    (hl : aget n T.links = some L) (hs : L.special = false) (hbs : L.binStr = false) (hb : L.bin = true)
+    (ho : Ordinary T L.attr) (hnb : T.binary.contains L.attr = true) :
+    (dotGet T n e).1 = some (.bool (aget (lower L.attr) (viewList e)).isSome) := by
+  unfold dotGet
+  simp only [hn, if_false, hl, hs, hbs, hb, Bool.false_eq_true, if_true]
+  congr 2
+  rw [getAttribute_boolean T h ho hnb]
+  rcases aget (lower L.attr) (viewList e) with _ | v
+  · rfl
+  · cases v with
+    | none => rfl
+    | some s =>
+      by_cases hs0 : s = []
+      · subst hs0; rfl
+      · have : s.isEmpty = false := by simpa using hs0
+        simp [pyOfOpt, PyVal.falsy, this]
+
 /-! ### C08d — the rendered start tag, read back -/
 
 theorem items_ordinary {e : El} (h : DictInv e) {k : Str} (hc : k ≠ classK) (hs : k ≠ styleK) :
